@@ -166,7 +166,8 @@ PROPS["C08"] = dict(
          "at their n-th Pending, optional pipe deregistration mid-stream, current-thread / 2 / 4 worker runtimes, seeded perturbation (spin, "
          "yield, sleep) at 12 schedule points between the individual channel-write / counter-update / arm steps. Oracle: popped multiset == "
          "accepted multiset, per-pipe order, no duplicates, and at quiescence queued_count == reserved_count == channel occupancy; a consumer "
-         "asleep while a pipe holds items and the ready list is empty is a lost wake-up. (notify) a gate at the point between check and "
+         "asleep while a pipe holds items and the ready list is empty is a lost wake-up; items a pipe had accepted before deregister_pipe() was "
+         "called must still be popped. (notify) a gate at the point between check and "
          "notified() in LoadBalancer::wait_for_connection and WaitGroup::wait holds the waiter while the condition is made true; the waiter "
          "must complete. distinct = (config, seed). (thorough) four ThreadSanitizer shards of the rpq histories, and eight Miri shards (one "
          "scheduler seed each, 12 tiny histories: 1-2 producers x 3 items, capacity 1-2, all sender kinds and enqueue modes, 1-2 consumers, "
